@@ -155,7 +155,7 @@ def run_case(case):
             if s == 0 and ren >= 0 and abs(pop[ri, b] / shares[b] - 1) > 1e-4:
                 return fail(nontriv, cls, "record %d (step %d): population of bunch %d is %.6g, its share of the filling is %.6g" % (ri, s, b, pop[ri, b], shares[b]), "rows:population", met)
             integ = (prof[ri, b] * w).sum()
-            e = abs(integ - pop[ri, b]) / shares[b]
+            e = abs(integ - pop[ri, b]) / max(shares[b], abs(pop[ri, b]))
             met["pop_err"] = max(met.get("pop_err", 0), e)
             if e > 5e-6:
                 return fail(nontriv, cls, "record %d: bunch %d profile integrates to %.8g, stored population %.8g" % (ri, b, integ, pop[ri, b]), "moments:population", met)
